@@ -448,6 +448,100 @@ def he_canon(st):
 
 
 # ---------------------------------------------------------------------------------------------
+# object history: ONE Wavefront sent to masks repeatedly while its data are replaced / edited / resized in between
+
+OBJ_M = 8                                   # mask grid M x M; with fpm_dx = wvl*efl/(dx*M) it covers the whole band of every pupil <= 8
+OBJ_EVENTS = ['fpm_A', 'fpm_B', 'fpm_A_shifted', 'fpm_ones', 'babinet_A', 'focus_fixed', 'set_data', 'scale_data', 'pad_inplace', 'crop_inplace']
+OBJ_PROP = {'fpm_A', 'fpm_B', 'fpm_A_shifted', 'fpm_ones', 'babinet_A', 'focus_fixed'}
+
+
+class ObjState:
+    def __init__(self, init, seed):
+        self.seed = seed
+        self.method = init['method']
+        self.wvl, self.efl, dx = HIST_UNITS[init['units']]
+        self.fpm_dx = self.wvl * self.efl / (dx * OBJ_M)
+        self.w = Wavefront(dense(tuple(init['shape']), seed, 61), self.wvl, dx, 'pupil')
+        self.masks = {'A': dense((OBJ_M, OBJ_M), seed, 62), 'B': dense((OBJ_M, OBJ_M), seed, 63, complex_=False), 'ones': np.ones((OBJ_M, OBJ_M))}
+        self.trace = []
+        self.last = None
+        self.nset = 0
+
+
+def ho_fresh(init, seed):
+    reset_executors(64)
+    return ObjState(init, seed)
+
+
+def ho_events(init, hist, st):
+    return OBJ_EVENTS
+
+
+def _obj_call(st, w, ev, R, hygiene=True):
+    """run propagation event ev on Wavefront w; returns ndarray (the field of the returned Wavefront) or FAILED"""
+    k = dict(method=st.method)
+    if ev in ('fpm_A', 'fpm_B', 'fpm_ones', 'fpm_A_shifted'):
+        mask = st.masks['A' if ev.startswith('fpm_A') else ev[4:]]
+        if ev == 'fpm_A_shifted':
+            k['shift'] = (0.5 * st.fpm_dx, -1 * st.fpm_dx)
+        o = R.call(w.to_fpm_and_back, st.efl, mask, st.fpm_dx, sig='history:Wavefront.to_fpm_and_back:exception', hygiene=hygiene, **k)
+    elif ev == 'babinet_A':
+        o = R.call(w.babinet, st.efl, None, st.masks['A'], st.fpm_dx, sig='history:Wavefront.babinet:exception', hygiene=hygiene, **k)
+    else:
+        o = R.call(w.focus_fixed_sampling, st.efl, st.fpm_dx, OBJ_M, sig='history:Wavefront.focus_fixed_sampling:exception', hygiene=hygiene, **k)
+    if o is FAILED:
+        return FAILED
+    d = getattr(o, 'data', None)
+    return np.asarray(d) if d is not None else FAILED
+
+
+def ho_apply(st, ev, R):
+    st.trace = st.trace + [ev]
+    st.last = None
+    w = st.w
+    if ev in OBJ_PROP:
+        before = np.array(w.data, copy=True)
+        out = _obj_call(st, w, ev, R)
+        st.last = (ev, out, before)
+    elif ev == 'set_data':
+        st.nset += 1
+        w.data = dense(w.data.shape, st.seed, 70 + st.nset)                 # another field, same shape
+    elif ev == 'scale_data':
+        w.data *= (0.5 + 0.25j)                                             # edited in place
+    elif ev == 'pad_inplace':
+        R.call(w.pad2d, 1, out_shape=(6, 7), inplace=True, sig='history:Wavefront.pad2d:exception') if max(w.data.shape) <= 6 else None
+    elif ev == 'crop_inplace':
+        R.call(w.crop, (3, 4), inplace=True, sig='history:Wavefront.crop:exception') if min(w.data.shape) >= 4 else None
+    return st
+
+
+def ho_check(st, init, hist, R):
+    w = st.w
+    cur = np.array(w.data, copy=True)
+    after = f'after {hist[:-1]}' if len(hist) > 1 else 'as the first event'
+    scale = max(1.0, float(np.abs(cur).max())) * 10
+    if st.last is not None:
+        ev, out, before = st.last
+        R.expect_equal(cur, before, 'history:Wavefront:propagation-modified-data', f'{ev} changed the data of the wavefront it was called on')
+        # the same call on a FRESH Wavefront carrying the object's current data / dx / wavelength
+        fresh = _obj_call(st, Wavefront(cur.copy(), w.wavelength, w.dx, w.space), ev, R, hygiene=False)
+        if out is not FAILED and fresh is not FAILED:
+            R.expect_close(out, fresh, TOL * scale * (1 + float(np.abs(st.masks['A']).max())), f'history:Wavefront.{ev}:{st.method}:stale-object-state',
+                           f'{ev} on a Wavefront {after} differs from the same call on a fresh Wavefront with the same data, dx and wavelength (shape {cur.shape})')
+        R.outcome('propagate')
+    else:
+        R.outcome('edit')
+    # all-pass mask over the whole band returns the CURRENT field, whatever happened to the object before
+    o = _obj_call(st, w, 'fpm_ones', R, hygiene=False)
+    R.expect_close(o, cur, TOL * scale, f'history:Wavefront.to_fpm_and_back:{st.method}:all-pass', f'all-ones full-band mask does not return the current field {("after " + str(hist)) if hist else "initially"} (shape {cur.shape})')
+    R.nontrivial(len(hist) > 0)
+
+
+def ho_canon(st):
+    return json.dumps(st.trace)
+
+
+# ---------------------------------------------------------------------------------------------
 
 EMB_OUT = [[3, 3], [4, 5], [6, 2]]
 EMB_BAND = [[4.0, 0], [7.3, 1], [12.0, 0]]          # (n_axis * Q_axis, unit set)
@@ -475,6 +569,7 @@ def plan(tier, seed):
     fams = [(16, 14), (32, 30), (64, 62)] if tier == 'quick' else [(16, 14), (24, 23), (32, 30), (64, 62), (128, 126)]
     he_inits = [{'M': M, 'base': b, 'band': float(M), 'units': u,
                  'shapes': [list(t) for t in dict.fromkeys([(b, b), (b + 1, b + 1), (M, M), (b, M), (M, b + 1)])]} for (M, b) in fams for u in (0, 1)]
+    ho_inits = [{'shape': sh, 'method': m, 'units': u} for (sh, u) in (([4, 5], 0), ([6, 6], 1)) for m in ('mdft', 'czt')]
     ns_shapes = [[40, 41], [100, 101], [400, 401], [1000, 1001], [1200, 1201], [1201, 1200]] + \
         ([] if tier == 'quick' else [[200, 201], [512, 513], [1024, 1025], [1500, 1501], [1999, 2000], [2048, 2049], [2049, 2048]])
     ns_cases = [{'N': N, 'out': S, 'band': P, 'units': u, 'shift': sh} for N in sorted(ns_shapes)
@@ -496,6 +591,11 @@ def plan(tier, seed):
                     'for each family (output M, input lengths that round to the same fast FFT length: 14,15,16 -> 16; 30,31,32 -> 32; 62,63,64 -> 64; square and two non-square members) x 2 unit sets: every history of length <= 2 over '
                     '(array shape, method in {mdft, czt}, direction) on the SHARED module-level executors with no clear() in between; one seeded dense physical field of the smallest size is embedded (by the harness) in each array; '
                     'in every state the last result must equal the textbook sum of the unpadded field and every earlier result of the same direction (embedding invariance in both orders: small then padded, padded then small, across methods)'),
+        HistoryUnit('wavefront_object_history', ho_inits, ho_fresh, ho_events, ho_apply, ho_check, ho_canon, 3 if tier == 'quick' else 4,
+                    f'ONE Wavefront object (initial shapes (4,5) and (6,6), methods mdft / czt): every history up to depth {3 if tier == "quick" else 4} over events {OBJ_EVENTS} -- to_fpm_and_back with a complex mask A, a real mask B, '
+                    'mask A with a shift, the all-ones mask, babinet, focus_fixed_sampling (all on one 8x8 focal grid that covers the whole band), wf.data replaced by another array of the same shape, wf.data scaled in place, in-place pad2d and crop; '
+                    'states are never merged; after every propagation event the result must equal the same call on a FRESH Wavefront built from the object\'s current data / dx / wavelength and the object\'s data must be untouched; '
+                    'in every state the all-ones full-band mask must return the current field'),
         ScopeUnit('shift_forms', sf_cases, run_shift_forms,
                   'argument-form alphabet of the shift: pupils (3,3),(2,4),(5,3) x outputs (4,4),(3,5) x 4 physical shifts (integral and fractional, one axis zero) x {mdft, czt} x '
                   '{focus_fixed_sampling, unfocus_fixed_sampling, to_fpm_and_back, Wavefront.focus_fixed_sampling, Wavefront.to_fpm_and_back}: the shift given as tuple of numpy scalars / list / float64 ndarray / '
